@@ -75,6 +75,8 @@ impl<T: RealNumber> NBDistribution<T> for CategoricalNBDistribution<T> {
                 forall|f: int| 0 <= f < j.vview().len() ==> (#[trigger] j.vview()[f]).floor_spec().to_usize_spec() is Some,
                 cat_known(j.vview(), self.coefficients@, class_index as int, feature as int), //# inv-features-seen-so-far-are-known-categories
                 likelihood == cat_ll(j.vview(), self.coefficients@, class_index as int, feature as int), //# inv-partial-sum-of-category-coefficients
+//@loopbody 1
+            proof { T::ops_total(); }   // all operator facts inside the body (robust against `x += y` <-> `x = x + y` rewrites)
 //@end
 //@extract src/naive_bayes/categorical.rs :: impl<T: RealNumber, M: Matrix<T>> NBDistribution<T, M> for CategoricalNBDistribution<T> :: classes :: ret=r
 //@spec
